@@ -1,7 +1,7 @@
 (* Extract.v -- extraction of the executable specs and models to OCaml (ExtrOcamlBasic only; Z stays
    the extracted binary datatype; one OCaml module per Coq module).  Run from ocaml/gen. *)
 From Coq Require Import ExtrOcamlBasic ZArith List String FMapPositive.
-From HexVerif Require Import WMap Isa SimModel AsmModel AsmLayout AsmSpec AsmStatements CliModel.
+From HexVerif Require Import WMap Isa SimModel AsmModel AsmLayout AsmSpec AsmStatements CliModel Loader.
 From HexVerif Require Import Vexp RtlSem TbModel.
 From HexVerif.gen Require RtlSv RtlV RtlVSynth RtlHex.
 From HexVerif Require Import XAst XSem IsaMon XCodegenExpr.
@@ -16,7 +16,7 @@ Separate Extraction WMap.rd WMap.wr WMap.zero WMap.empty WMap.load_words Positiv
   SimModel.step SimModel.run SimModel.init SimModel.arch_of SimModel.trace_symbol SimModel.trace_prefix
   AsmModel.lex AsmModel.parse AsmLayout.assemble_directives AsmLayout.assemble AsmLayout.diag_location AsmLayout.codegen AsmLayout.emit_bin
   AsmLayout.num_nibbles AsmLayout.enc_size AsmLayout.emit_instr AsmLayout.instr_len
-  AsmStatements.struct_listing CliModel.hexasm_main CliModel.xcmp_main CliModel.hexsim_main CliModel.xrun_main
+  AsmStatements.struct_listing Loader.load_file CliModel.hexasm_main CliModel.xcmp_main CliModel.hexsim_main CliModel.xrun_main
   AsmSpec.check_image AsmSpec.check_symtab AsmSpec.check_listing AsmSpec.decode AsmSpec.bytes_map
   XSem.run XSem.run_fuel XSem.default_fuel XSem.default_steps XSem.default_depth
   IsaMon.accesses IsaMon.acc_ok IsaMon.state_ok IsaMon.mon_ok XCodegenExpr.cg
